@@ -1,7 +1,7 @@
 (* ===== C14 : any input string is parsed or rejected with the library's parsing error ===== *)
 From Coq Require Import List NArith ZArith Bool Arith.
 Import ListNotations.
-Require Import GenOps Tok Classify Parser Parser2 Parser3 ParserTotal ParserDisabled GenTie.
+Require Import GenOps Tok Classify Parser Parser2 Parser3 ParserTotal ParserDisabled ParserSorted GenTie.
 Open Scope N_scope.
 
 (* The parser model is a total function: termination is by construction (structural recursion / explicit fuel). *)
@@ -18,6 +18,25 @@ Theorem C14_internal_errors_do_not_escape : forall fixed intercept f av bad pn p
   get_terms fixed intercept f av bad pn pv cl s = inr (EInternal n) ->
   n = 5%nat.
 Proof. exact get_terms_internal_errors. Qed.
+
+(* ... and with MULTISTAGE off (the default configuration; with it the model only covers acceptance, see the example below) the stuck marker is
+   unreachable too: the context rules of '~' and '|' confine structured values to the top of the tree, so EVERY AST the machine returns is
+   well-sorted (set operators get term sets, '|' and '~' get term sets or tuples, every node has its operator's arity), and the evaluator
+   never gets stuck on a well-sorted AST.  Hence: for every input string, configuration, variable list and classifier NO internal exception
+   class escapes from the parser model. *)
+Theorem C14_parsed_trees_are_well_sorted : forall f, f_stage f = false -> forall fixed ts a, to_ast fixed f ts = inl (Some a) -> ws a.
+Proof. exact to_ast_well_sorted. Qed.
+Theorem C14_well_sorted_trees_never_stuck : forall cx a, ws a -> match eval (S (asize a)) cx a with inr (EInternal 5) => False | _ => True end.
+Proof. exact eval_ws_not_stuck. Qed.
+Theorem C14_no_internal_error_escapes : forall fixed intercept f av bad pn pv cl s n,
+  f_stage f = false -> fragments_only_syntax_errors bad ->
+  get_terms fixed intercept f av bad pn pv cl s <> inr (EInternal n).
+Proof. exact get_terms_never_internal. Qed.
+(* with MULTISTAGE on the model does get stuck ('[a ~ b] + c'; the implementation raises NotImplementedError there -- a recorded finding): the
+   hypothesis f_stage f = false cannot be dropped *)
+Example C14_multistage_is_outside :
+  get_terms true true {| f_two := true; f_parts := true; f_stage := true |} None [] [] [] (classify_with []) [91;97;32;126;32;98;93;32;43;32;99] = inr (EInternal 5).
+Proof. vm_compute. reflexivity. Qed.
 
 (* A plain SyntaxError only when an embedded Python fragment is itself syntactically invalid. *)
 Theorem C14_plain_syntax_error_only_for_invalid_fragment : forall fixed intercept f av bad pn pv cl s,
@@ -54,6 +73,10 @@ Proof. eexists. vm_compute. reflexivity. Qed.
 
 Print Assumptions C14_ast_builder_total_and_clean.
 Print Assumptions C14_internal_errors_do_not_escape.
+Print Assumptions C14_parsed_trees_are_well_sorted.
+Print Assumptions C14_well_sorted_trees_never_stuck.
+Print Assumptions C14_no_internal_error_escapes.
+Print Assumptions C14_multistage_is_outside.
 Print Assumptions C14_plain_syntax_error_only_for_invalid_fragment.
 Print Assumptions C14_disabled_operators_never_in_ast.
 Print Assumptions C14_twosided_off.
